@@ -133,7 +133,12 @@ func genLintFile(g *G, o lintOpts) []byte {
 		add(l)
 	}
 	for i := 0; i < o.n("dup-bu"); i++ {
-		add("BU_: Extra" + fmt.Sprint(i))
+		l := "BU_: Extra" + fmt.Sprint(i)
+		if g.R.Bool() && len(nodes) > 0 {
+			// a name that an earlier BU_ line already declared: unique-node-names looks across all BU_ lines
+			l += " " + nodes[g.R.Intn(len(nodes))]
+		}
+		add(l)
 		nodes = append(nodes, "Extra"+fmt.Sprint(i))
 	}
 	if o.n("missing-bu") > 0 {
